@@ -11,38 +11,51 @@ CORR = "Corr.C20"
 REQUIRES = ["Model.Deferred", "Model.DeferredMatchers", "Spec.C20"]
 PROOF_FILES = ["Proof/C20.v"]
 MANIFEST = {
-    "text": "PARTIAL. Coq theorems over all Deferred states and all histories of match / fire / fail / addCallbacks / "
-            "extract_result on one Deferred about a hand-written Gallina model of on_deferred_result, "
-            "_NoResult/_Succeeded/_Failed, extract_result and SynchronousDeferredRunTest._run_user over a model of "
-            "Twisted's Deferred: trichotomy, inner matcher, extract_result, passivity (a history observes the same "
-            "as the history with its matches erased; a failure looked at by succeeded()/failed() is consumed by an "
-            "errback), a fired Deferred is reported like a direct return/raise. Tied to /repo on every run by executing "
-            "the real matchers on real Deferreds and the model inside coqc on the same generated histories; the "
-            "oracle for a failing input is the executable statement spec_okb, proved to imply the readable Spec.",
-    "note": "PARTIAL: Twisted's Deferred (callback chain, AlreadyCalledError) and its unhandled-error logging "
-            "(DebugInfo.__del__, garbage collection, log publisher) are modelled, not verified; 'not logged as "
-            "unhandled' is the model's handled flag, validated against the real GC/log path on every case. "
-            "Trusted: Coq kernel + vm_compute; the harness. All theorems "
-            "closed under the global context.",
-    "technique": "Coq proof (case analysis on the Deferred state, simulation between a history and its erasure) + "
-                 "model/implementation correspondence in coqc on real Deferreds",
+    "text": "PARTIAL. Coq theorems, for every history (any length and order of match / callback / errback / addCallbacks / "
+            "pause / unpause / firing of a chained Deferred / extract_result, any callbacks, nested inner matchers) on one "
+            "Deferred, about a hand-written Gallina model of on_deferred_result, _NoResult/_Succeeded/_Failed, "
+            "extract_result and SynchronousDeferredRunTest._run_user over a model of Twisted's Deferred: trichotomy, "
+            "inner matcher, extract_result, nothing fired (no callback runs during a match, .called and the state "
+            "unchanged), non-interference (after a match every later operation observes exactly what it would have "
+            "without it; a history shows its callbacks the same values and ends in the same state as the history "
+            "with its matches erased), a failure looked at by succeeded()/failed() is consumed by an errback and not "
+            "on record as unhandled, a fired Deferred is reported like a direct return/raise. Tied to /repo on every "
+            "run by executing the real matchers on real Deferreds and the model inside coqc on the same generated "
+            "histories; the oracle for a failing input is the executable statement spec_okb, proved to imply the "
+            "readable Spec.",
+    "note": "PARTIAL: Twisted's Deferred (callback chain, pause, chaining, AlreadyCalledError) and its unhandled-error "
+            "logging (DebugInfo.__del__, garbage collection, log publisher) are modelled, not verified; 'not logged as "
+            "unhandled' is the model's DebugInfo flag, validated against the real GC/log path on every case. A Deferred "
+            "that was fired but has no result available (paused chain, waiting on a chained Deferred) counts as "
+            "'no result'. Re-entrant use (matching from inside a running callback) is not modelled. "
+            "Trusted: Coq kernel + vm_compute; the harness. All theorems closed under the global context.",
+    "technique": "Coq proof (invariant of reachable Deferred states, case analysis on the state, simulation between a "
+                 "history and its erasure by induction on the history) + model/implementation correspondence in coqc "
+                 "on real Deferreds",
     "ref": "6 C20",
 }
-RULE = ("histories of up to 7 operations (match with has_no_result/succeeded(m)/failed(m), m in Always/Never/Is k; "
-        "callback(v); errback(e); addCallbacks with pass/constant/raise/recording functions or one returning an "
-        "unfired Deferred; pause/unpause; firing the Deferred the chain waits for; extract_result) on one "
-        "fresh real Deferred: all histories to length 4 over a reduced alphabet (subsampled), each Deferred state "
-        "with 0-3 callbacks x all matchers, random longer ones; plus SynchronousDeferredRunTest on every stage "
-        "position x return/raise; non-trivial = at least one match and one fire/fail and one callback; distinct = "
-        "distinct JSON")
+RULE = ("histories of 1-20 operations (match with has_no_result/succeeded(m)/failed(m), m from Always/Never/Is k closed "
+        "under Not/MatchesAll/MatchesAny; callback(v); errback(e); addCallbacks with pass/constant/raise/recording "
+        "functions or one returning an unfired Deferred; pause/unpause; firing or failing the Deferred the chain waits "
+        "for; extract_result) on one fresh real Deferred, each followed by dropping the Deferred and gc.collect() "
+        "under a log observer: fixed corners, each Deferred state with 0-3 callbacks x all matchers, all histories to "
+        "length 4 with a match over a reduced alphabet (subsampled; a fire appended when there is none; a recording "
+        "callback appended), random ones built as callbacks-before + body + callbacks-after and repaired to contain "
+        "a match, a fire/fail and a callback; plus SynchronousDeferredRunTest on every stage position x "
+        "return/raise; non-trivial = at least one match and one fire/fail and one callback (or a sync case); "
+        "distinct = distinct JSON")
 TRUSTED = ["PARTIAL: Twisted's Deferred, DebugInfo.__del__/GC and the log publisher are modelled, not verified",
-           "the state of a Deferred is observed by inspecting .called/.result of the real object"]
+           "the state of a Deferred is observed by inspecting .called/.paused/.result of the real object",
+           "the reference (match-free) history is replayed by the harness; which history it must be is checked by "
+           "spec_okb (erase_obs)"]
 ASSUMPTIONS = ["a callback returns at most a fresh unfired Deferred (one level of chaining); unpause() is only "
-               "called after a pause() of the same history",
-               "values and exceptions are drawn from small pools and compared by token"]
-EXPLANATION = ("Theorems in coq/Props/C20.v; correspondence: real matchers on real Deferreds (states, callbacks seen, "
-               "unhandled-error log after gc.collect()) against coq/Model/DeferredMatchers.v, each history also run "
-               "with its matches erased; SynchronousDeferredRunTest against plain RunTest on whole tests.")
+               "called after a pause() of the same history; no re-entrant calls from inside callbacks",
+               "values and exceptions are drawn from small pools and compared by token",
+               "fired-but-no-result-yet (paused / waiting on a chained Deferred) is classified as 'no result'"]
+EXPLANATION = ("Theorems in coq/Props/C20.v; correspondence: real matchers on real Deferreds (verdicts, inspected states, "
+               "recording callbacks run per operation and values seen, unhandled-error log after gc.collect()) "
+               "against coq/Model/DeferredMatchers.v, each history also replayed with its matches erased on a second "
+               "Deferred; SynchronousDeferredRunTest against plain RunTest, _run_user and whole tests.")
 MAXTASKS = 400
 
 N_EXC = 4
@@ -506,13 +519,13 @@ def rand_op(rng):
     return ["extract"]
 
 
-def rand_history(rng):
+def rand_history(rng, maxbody=8):
     """callbacks before, a body in which the Deferred is matched and fired in some order (possibly behind a
     pause or a chained Deferred), callbacks after; always at least one match, one fire/fail, one callback"""
     ops = [rand_add(rng) for _ in range(rng.choice([0, 0, 1, 1, 2, 3]))]
     if rng.random() < 0.2:
         ops.append(["pause"])
-    body = [rand_op(rng) for _ in range(rng.randint(2, 8))]
+    body = [rand_op(rng) for _ in range(rng.randint(2, maxbody))]
     kinds = [o[0] for o in body]
     if "match" not in kinds:
         body.insert(rng.randint(0, len(body)), ["match", rand_matcher(rng)])
@@ -536,6 +549,10 @@ def generate(rng, tier):
 
     def hist(ops):
         cases.append({"kind": "hist", "ops": [list(o) for o in ops]})
+    # SynchronousDeferredRunTest (first: the coverage sample of the evidence always contains case 0)
+    for pos in range(4):
+        for w in [["ok", 0], ["ok", 3], ["ok", 6], ["err", 0], ["err", 1], ["err", 2], ["err", 3]]:
+            cases.append({"kind": "sync", "pos": pos, "what": w})
     rec = lambda t: ["add", ["rec", t], ["rec", t]]          # noqa: E731
     tri = [["match", MATCHERS[0]], ["match", MATCHERS[1]], ["match", MATCHERS[2]]]
     # fixed corners: trichotomy in each state, then what later callbacks see
@@ -550,10 +567,6 @@ def generate(rng, tier):
     hist([["fire", 3], ["extract"], rec(1)])
     hist([["fail", 0], ["extract"], rec(1)])
     hist([["fire", 3], ["fire", 4]])
-    # SynchronousDeferredRunTest
-    for pos in range(4):
-        for w in [["ok", 0], ["ok", 3], ["ok", 6], ["err", 0], ["err", 1], ["err", 2], ["err", 3]]:
-            cases.append({"kind": "sync", "pos": pos, "what": w})
     # a failure is inspected and the Deferred dropped: nothing may be logged; not inspected: logged
     for m in MATCHERS[1:]:
         hist([rec(1), ["fail", 1], ["match", m]])
@@ -602,7 +615,7 @@ def generate(rng, tier):
             hist(h + [rec(3)])
     n_rand = 2400 if tier == "quick" else 46000
     for _ in range(n_rand):
-        hist(rand_history(rng))
+        hist(rand_history(rng, 8 if tier == "quick" else 14))
     return cases
 
 
@@ -628,7 +641,8 @@ def shrink(case):
 
 
 def distribution(cases):
-    d = {"kind": {}, "length": {}, "ops": {}, "match_on_state": {}, "sync_positions": {}, "with_pause_or_wait": 0}
+    d = {"kind": {}, "length": {}, "ops": {}, "match_on_state": {}, "sync_positions": {}, "with_pause_or_wait": 0,
+         "nested_inner_matcher": 0, "callbacks_before_and_after_a_match": 0, "matches_per_history": {}}
     for c in cases:
         d["kind"][c["kind"]] = d["kind"].get(c["kind"], 0) + 1
         if c["kind"] != "hist":
@@ -638,6 +652,14 @@ def distribution(cases):
         d["length"][n] = d["length"].get(n, 0) + 1
         fired = "unfired"
         d["with_pause_or_wait"] += any(o[0] == "pause" or (o[0] == "add" and ["wait"] in o[1:]) for o in c["ops"])
+        d["nested_inner_matcher"] += any(o[0] == "match" and len(o[1]) > 1 and o[1][1][0] in ("not", "both", "either")
+                                         for o in c["ops"])
+        ks = [o[0] for o in c["ops"]]
+        if "match" in ks:
+            first, last = ks.index("match"), len(ks) - 1 - ks[::-1].index("match")
+            d["callbacks_before_and_after_a_match"] += ("add" in ks[:last] and "add" in ks[first + 1:])
+        nm = min(ks.count("match"), 6)
+        d["matches_per_history"][nm] = d["matches_per_history"].get(nm, 0) + 1
         for o in c["ops"]:
             d["ops"][o[0]] = d["ops"].get(o[0], 0) + 1
             if o[0] == "match":
